@@ -474,7 +474,14 @@ def p_binner_ops(a):
     return {"obs": obs}
 
 
+def p_numitems(a):
+    b = binner_of(bool(a["keep"]))
+    bins = b.new_bins(a["k"])
+    return {"num": int(b.numitems(bins, a["i"]))}
+
+
 PORTS = {
+    "numitems": p_numitems,
     "binner_ops": p_binner_ops,
     "partition": p_partition, "pack": p_pack, "cg_clock": p_cg_clock, "cbldm_clock": p_cbldm_clock,
     "cbldm_args": p_cbldm_args, "ckk_generator": p_ckk_generator, "algo_direct": p_algo_direct,
